@@ -80,7 +80,7 @@ def src_abs(v, nr, nc, nanpairs):
             for q in range(p + 1, n):
                 row.append(S.NAN if pats[p] == pats[q] else S.tok(r, pats[p], pats[q], nanpairs))
         vec.append(row)
-    return {'rows': rows, 'pats': pats, 'ridx': ridx, 'pidx': pidx, 'pinv': [], 'meas': 1, 'pcat': 1, 'vec': vec}
+    return {'rows': rows, 'pats': pats, 'ridx': ridx, 'pidx': pidx, 'pinv': [], 'meas': 1, 'pcat': 1, 'pdem': 0, 'vec': vec}
 
 
 def call_generator(c, src, flavour):
